@@ -21,7 +21,8 @@ METHODS = ['run', 'get', 'doIt', 'compute', 'foo', 'bar', 'getName', 'm', 'md', 
 TYPES_PRIM = ['int', 'long', 'boolean', 'double', 'char']
 EXC = ['IOException', 'RuntimeException', 'Exception', 'IllegalStateException']
 ANNOTS = ['@Override', '@Deprecated', '@Test', '@Nullable']
-WORDS = ['the', 'value', 'of', 'item', 'returns', 'café', 'naïve', '中文', 'x<y', 'a&b', 'quote"q', 'back\\slash', 'tab\there']
+WORDS = ['the', 'value', 'of', 'item', 'returns', 'café', 'naïve', '中文', 'x<y', 'a&b', 'quote"q', 'back\\slash', 'tab\there',
+         'ctl\x01x', 'del\x7fete', 'vt\x0bv', 'emoji😀', 'nel\u0085', 'ls\u2028sep']
 
 
 _strlit = re.compile(r'^"(?:[^"\\\n]|\\.)*"$')
@@ -30,6 +31,14 @@ _strlit = re.compile(r'^"(?:[^"\\\n]|\\.)*"$')
 def unquote_literal(a):
     """argument text -> what the property calls 'string literals unquoted': only a single string literal loses its quotes"""
     return a[1:-1] if _strlit.match(a) else a
+
+
+GO_SPACE = '\t\n\v\f\r \x85\xa0\u1680\u2000\u2001\u2002\u2003\u2004\u2005\u2006\u2007\u2008\u2009\u200a\u2028\u2029\u202f\u205f\u3000'
+
+
+def go_trim(t):
+    """strings.TrimSpace: Go's unicode.IsSpace set (a tag's text is the rest of its line, trimmed)"""
+    return t.strip(GO_SPACE)
 
 
 class Emitter:
@@ -120,7 +129,7 @@ class Gen:
         if r < 0.35:
             return str(self.rng.randint(0, 99))
         if r < 0.55:
-            w = self.rng.choice(['s', 'hello', 'a b', 'x\\"y', 'café', 'SELECT', '', 'a,b', '(p)'])
+            w = self.rng.choice(['s', 'hello', 'a b', 'x\\"y', 'café', 'SELECT', '', 'a,b', '(p)', 'c\x01', 'd\x7f', 'e😀'])
             return '"' + w + '"'
         if r < 0.65:
             return self.rng.choice(["'c'", "'\\n'", "'\"'"])
@@ -500,7 +509,7 @@ class Gen:
             k = rng.choice(kinds)
             t = ' '.join(rng.sample(WORDS, rng.randint(1, 3)))
             e.w('/** @' + k + ' ' + t + ' */')
-            tags.append((k, t))
+            tags.append((k, go_trim(t)))
         else:
             e.w('/**')
             e.newline(); e.w(' * ' + ' '.join(rng.sample(WORDS, 2)))
@@ -509,7 +518,7 @@ class Gen:
                 k = rng.choice(kinds)
                 t = ' '.join(rng.sample(WORDS, rng.randint(1, 3)))
                 e.newline(); e.w(' * @' + k + ' ' + t)
-                tags.append((k, t))
+                tags.append((k, go_trim(t)))
             if rng.random() < 0.3 and n:
                 e.w(' */')     # closing delimiter on the last tag line
             else:
